@@ -64,6 +64,7 @@ def run(ctx):
             "class name bound to a non-type": row(M, "g", {"w": td(M, "Rebound")}, INT),
             "class inside generic removed": row(M, "g", {"w": td("typing", "List", [td(M, "RemovedClass")])}, INT),
             "function in a local scope": row(M, "deco.<locals>.wrapper", {"a": INT}, INT),
+            "name bound to the wrapper of a decorator without functools.wraps": row(M, "shadowed", {"x": INT}, INT),
         }
         # rows that decode but mention parameters that no longer exist are NOT stale: they must be used and the extra name ignored
         extra_param = row(M, "f", {"a": INT, "gone_param": INT}, INT)
